@@ -414,10 +414,12 @@ def check_effect(op, res, mb, ma, prev, st, before_bytes):
     return None
 
 
-def judge_full(case, a):
-    """judge() plus the targeted-record effects that need cursor tracking, and the C11 walk rules"""
+def judge_full(case, a, keep_going=False):
+    """judge() plus the targeted-record effects that need cursor tracking, and the C11 walk rules.
+    keep_going: also run the targeted checks when judge() already found a failure (of another property:
+    a stale cursor field is a C08 failure, what a later call through that cursor does to the message is C09's)"""
     fails, waived = judge(case, a)
-    if fails or waived - {KF1, KF3} or a.startswith("noparse"):
+    if (fails and not keep_going) or waived - {KF1, KF3} or a.startswith("noparse"):
         return fails, waived
     init, ops = split_ops(case)
     pieces = a.split(" ; ") if a else []
